@@ -24,6 +24,9 @@ def run(ctx):
     ctx.run("C03.SIBLINGS", "R-SIBLING", zf.siblings)
     ctx.run("C03.DUMP-FLOW", "R-FLOW", zf.dump_flow)
     ctx.run("C03.CLOSE", "R-ORDER", zf.close_clause)
+    ctx.run("C03.ARG-RESOLUTION", "R-TABLE", zf.arg_resolution)
+    from . import c19
+    ctx.run("C19.INTERCEPT", "R-TABLE/R-ORDER", c19.intercept)
     ctx.run("C13.FLUSH", "R-ORDER", zf.flush)
     ctx.run("C13.PROGRESS", "R-PROGRESS", zf.progress)
     ctx.run("C13.CURSOR", "R-DUAL", zf.cursor)
